@@ -1,4 +1,5 @@
 // group `wasm_submsg`: WasmKeeper::execute_submsg against the oracle of reply   (C02, C03, C04, C05)
+#![feature(allocator_api)]
 //@ include prelude/macros.rs
 use vstd::prelude::*;
 use vstd::std_specs::iter::IteratorSpec;
